@@ -1169,6 +1169,7 @@ func c19Rt(kind string, toks []string) (obs string, nontrivial bool) {
 			}
 		}
 	}()
+	c19SetWindow(strings.Join(toks, " "))
 	if kind != "ds" && kind != "rds" {
 		return "bad-case", false
 	}
